@@ -481,6 +481,7 @@ pub fn name_part() -> BoxedStrategy<String> {
         1 => Just("é".to_string()),
         1 => Just("日本".to_string()),
         1 => Just("a-b_c".to_string()),
+        1 => Just("my.app".to_string()),
     ]
     .boxed()
 }
@@ -492,6 +493,8 @@ pub fn suffix_strat() -> BoxedStrategy<Option<String>> {
         1 => Just(Some("txt".to_string())),
         1 => Just(Some("trc".to_string())),
         1 => Just(Some("l".to_string())),
+        1 => Just(Some("log.txt".to_string())),
+        1 => Just(Some("log_raw".to_string())),
     ]
     .boxed()
 }
@@ -509,6 +512,7 @@ pub fn custom_fmt() -> BoxedStrategy<String> {
         2 => Just("-%H%M%S".to_string()),
         1 => Just("_%H-%M".to_string()),
         1 => Just("_%H".to_string()),
+        1 => Just("_%H.%M.%S".to_string()),
         1 => Just(String::new()),
     ];
     let prefix = prop_oneof![
